@@ -21,7 +21,7 @@ def eng_copySrc (so : Spec.Opts) (doc : Value) (ftoks : List Bytes) : Res Value 
 theorem spec_copy_none {so : Spec.Opts} {sz acc : Nat} {doc : Value} {sop : Spec.Op} {ptoks : List Bytes}
     (hk : sop.kind = .copy) (hp : Spec.parsePointer sop.path = some ptoks)
     (hf : Spec.parsePointer sop.frm = none) :
-    Spec.applyOp so sz acc doc sop = .unspec := by
+    Spec.applyOp so sz acc doc sop = .fail .parentUnreachable := by
   simp only [Spec.applyOp, hp, hk, hf]
 
 theorem spec_copy {so : Spec.Opts} {sz acc : Nat} {doc : Value} {sop : Spec.Op} {ptoks ftoks : List Bytes}
@@ -251,17 +251,63 @@ theorem copy_src {o : Opts} {e : Bool} {r2 : Root} {doc : Value} {f : Bytes} {ft
 theorem isDocNil_of_isCon {n : Node} (h : isCon n = true) : isDocNil n = false := by
   cases n <;> simp [isCon] at h <;> rfl
 
+/-- a source pointer outside RFC 6901: `copy` finds nothing -/
+theorem opCopy_from_none {o : Opts} {r : Root} {acci : Int} {op : Op} {f : Bytes}
+    (hfo : op.frm = some f) (hpf : Spec.parsePointer f = none) :
+    opCopy o r acci op = .err .missing := by
+  rw [eng_opCopy_eq o r acci op f hfo, copyFirst_ne o r (parsePointer_none_ne_nil hpf), copySource_eq,
+    withPath_of_parsePointer_none _ _ _ hpf]
+  rfl
+
 theorem opCopy_refines {o : Opts} {r : Root} {op : Op} {sop : Spec.Op} {f : Bytes}
     (sz acc : Nat) (acci : Int) (hl : o.limit = 0) (hr : InvRoot o.esc r)
     (hk : sop.kind = .copy) (hpath : sop.path = op.path) (hfo : op.frm = some f) (hfrm : sop.frm = f)
     (hq : ∀ toks, Spec.parsePointer op.path = some toks → ∀ t ∈ toks, QK o.esc t = true) :
     OpRef o.esc (Spec.applyOp (specOpts o) sz acc (den r.con) sop) (fstOut (opCopy o r acci op)) := by
+  -- a source pointer outside RFC 6901: the first walk finds nothing
+  have hfnone : Spec.parsePointer f = none →
+      ∃ er, fstOut (opCopy o r acci op) = .err er := by
+    intro hpf
+    rw [opCopy_from_none hfo hpf]
+    exact ⟨.missing, rfl⟩
   cases hp : Spec.parsePointer op.path with
-  | none => simp only [Spec.applyOp, hpath, hp, OpRef]
+  | none =>
+    -- the destination is outside RFC 6901: the source half runs first, then nothing is found
+    have hsp : Spec.parsePointer sop.path = none := by rw [hpath]; exact hp
+    rw [spec_copy_path_none hk hsp, hfrm]
+    cases hpf : Spec.parsePointer f with
+    | none => exact hfnone hpf
+    | some ftoks =>
+      rw [eng_opCopy_eq o r acci op f hfo]
+      have h1 := copy_phase1 (o := o) hr hpf
+      cases ftoks with
+      | nil =>
+        simp only [eng_copySrc] at h1
+        obtain ⟨r1, ha, hr1, hd1⟩ := h1
+        rw [ha]
+        simp only [withPath_of_parsePointer_none _ _ _ hp, eng_afterW, failOfW, fstOut]
+        exact ⟨_, rfl⟩
+      | cons ft fts =>
+        simp only [eng_copySrc] at h1 ⊢
+        cases hsrc : Spec.atParent (specOpts o) (Spec.getIn (specOpts o) false) (den r.con) (ft :: fts) with
+        | unspec => simp only [Res.bind, OpRef]
+        | fail c =>
+          rw [hsrc] at h1
+          simp only [Res.bind] at h1
+          obtain ⟨ha, er, her⟩ := h1
+          simp only [Res.bind, ha, her, fstOut, OpRef]
+          exact ⟨_, rfl⟩
+        | ok pv =>
+          rw [hsrc] at h1
+          simp only [Res.bind] at h1
+          obtain ⟨r1, ha, hr1, hd1⟩ := h1
+          rw [ha]
+          simp only [Res.bind, withPath_of_parsePointer_none _ _ _ hp, eng_afterW, failOfW, fstOut, OpRef]
+          exact ⟨_, rfl⟩
   | some ptoks =>
     have hp' : Spec.parsePointer sop.path = some ptoks := by rw [hpath]; exact hp
     cases hpf : Spec.parsePointer f with
-    | none => rw [spec_copy_none hk hp' (by rw [hfrm]; exact hpf)]; trivial
+    | none => rw [spec_copy_none hk hp' (by rw [hfrm]; exact hpf)]; exact hfnone hpf
     | some ftoks =>
       rw [spec_copy hk hp' (by rw [hfrm]; exact hpf) (by simp [specOpts, hl]), eng_opCopy_eq o r acci op f hfo]
       have h1 := copy_phase1 (o := o) hr hpf
